@@ -18,7 +18,9 @@ V: the driver runs the real fit for each: table rows -> outcome; small vectors -
    seeded order - and must return bit-identical parameters (CaseOrderIndependent); every fixed-delta fit is
    also made as the LAST fit of one object with a past (free fit first, another f_delta first, delta attribute
    overwritten, deep copy of such an object) and must equal the fresh object's fit, reported delta included
-   (ObjectHistoryIndependent); spec/Trace_C13.tla judges every record.
+   (ObjectHistoryIndependent); pairs of consecutive fits with the same delta in force on samples with equal
+   numbers of non-zero observations and 0 / 1 / 12 zeros, in both orders, on one object and on two, are each
+   judged against the regression and against the second fit made alone in a fresh process; spec/Trace_C13.tla judges every record.
 """
 import copy
 import json
@@ -407,6 +409,64 @@ def law_record(vc, rid, c, seed):
     return rec, x
 
 
+# ----------------------------------------------------------------------------------
+# pairs of fits with equal delta, equal numbers of non-zero observations, different numbers of zeros
+
+def zp_inputs(c, seed):
+    rng = np.random.default_rng(zlib.crc32(f"{seed}|zp|{c['wk']}|{c['method']}|{c['npos']}|{c['za']}|{c['zb']}|{c['objs']}".encode()))
+    out = []
+    for z in (c["za"], c["zb"]):
+        u = rng.random(c["npos"])
+        x = np.concatenate([2.0 * (-np.log1p(-u ** (1 / 1.6))) ** (1 / 1.3), np.zeros(z)])
+        x = x[rng.permutation(len(x))]
+        warg, warr = weights_for(c["wk"], x, rng, "zp")
+        out.append((x, warg, warr))
+    return out, float(c["fd"])
+
+
+def zp_fresh(arg):
+    """the SECOND fit of the pair as the only fit of a fresh process"""
+    c, seed = arg
+    vc = import_virocon()
+    (_, (x, warg, _)), fd = zp_inputs(c, seed)
+    with warnings.catch_warnings():
+        warnings.simplefilter("ignore")
+        return bits(do_fit(vc, x, c["method"], warg, fd))
+
+
+def zp_record(vc, rid, c, seed, b0):
+    (a, b), fd = zp_inputs(c, seed)
+    EW = vc.ExponentiatedWeibullDistribution
+    rec = dict(id=rid, kind="zeropair", exc="", pos=True, g=0, ab=0, g1=0, ab1=0, bits0=b0, bitsS=[])
+    with warnings.catch_warnings():
+        warnings.simplefilter("ignore")
+        try:
+            o1 = EW(f_delta=fd)
+            o1.fit(a[0], method=c["method"], weights=a[1])
+            r1 = (float(o1.alpha), float(o1.beta), float(o1.delta))
+            o2 = o1 if c["objs"] == "one" else EW(f_delta=fd)
+            o2.fit(b[0], method=c["method"], weights=b[1])
+            r2 = (float(o2.alpha), float(o2.beta), float(o2.delta))
+            rec["bitsS"] = bits(r2)
+            for (x, _, warr), (al, be, de), gk, ak in ((a, r1, "g1", "ab1"), (b, r2, "g", "ab")):
+                ok = all(math.isfinite(v) for v in (al, be, de)) and al > 0 and be > 0 and de == fd
+                if not ok:
+                    rec["pos"] = False
+                    continue
+                xs, p, wn = prepare(x, warr)
+                a_ref, b_ref = ref_regression(xs, p, wn, de)
+                rec[gk] = qrel(gradient(xs, p, wn, de, al, be))
+                rec[ak] = max(qrel((al - 10 ** a_ref) / 10 ** a_ref), qrel((be - 1 / b_ref) * b_ref))
+        except Exception as e:  # noqa
+            rec["exc"] = f"{type(e).__name__}: {e}"[:200]
+    return rec
+
+
+def zp_key(c):
+    return (f"zeropair weights={c['wk']} delta={c['fd']} method={c['method']} nonzero={c['npos']} "
+            f"zeros={c['za']}->{c['zb']} objects={c['objs']}")
+
+
 def law_key(c):
     return (f"law weights={c['wk']} delta={c['fd'] if c['fixed'] else 'free'} method={c['method']} "
             f"class={c['cls']} n={c['n']} rep={c['rep']}")
@@ -517,7 +577,7 @@ def table_key(c):
 
 # ----------------------------------------------------------------------------------
 
-def selftest(ctx, law_recs, disc_recs, failing):
+def selftest(ctx, law_recs, disc_recs, failing, all_recs=()):
     good = [r for r in law_recs if r["id"] not in failing and r["exc"] == ""]
     free_arr = next((r for r in good if r["wk"] == "array" and not r["fixed"] and r["haszeros"]), None)
     fix_kw = next((r for r in good if r["wk"] == "quadratic" and r["fixed"]), None)
@@ -566,6 +626,10 @@ def selftest(ctx, law_recs, disc_recs, failing):
         m(fh, "FreeDeltaHistory", fhist=[dict(fh["fhist"][0], dd=900000)] + fh["fhist"][1:])
         m(fh, "FreeDeltaHistory", fhist=fh["fhist"][:1])
         m(fh, "FreeDeltaHistory", fhist=[dict(fh["fhist"][0], ep=-50000)] + fh["fhist"][1:])
+    zp = next((r for r in all_recs if r.get("kind") == "zeropair" and r["id"] not in failing and r["exc"] == ""), None)
+    if zp is not None:
+        m(zp, "NormalEquations", ab=170000000)                     # 17 % off the weighted quantile regression
+        m(zp, "CaseOrderIndependent", bitsS=zp["bitsS"][:-1] + [zp["bitsS"][-1] ^ 1])
     m(fix_kw, "EarlierFitDoesNotLeak", bitsH=fix_kw["bitsH"][:-1] + [fix_kw["bitsH"][-1] ^ 1])
     m(dict(id=0, kind="table", method="lsq", wk="none", fixedset=[], outcome="ValueError"), "OutcomeTable")
     m(dict(id=0, kind="table", method="wlsq", wk="cubic", fixedset=["alpha"], outcome="fit-free-delta"), "OutcomeTable")
@@ -611,6 +675,7 @@ def run(ctx):
     ctx.model_check("EwLsq", "MC_EwLsq_mut_pos.cfg", expect_violation="PositionsAfterRanking", workers=4)
     ctx.model_check("EwLsq", "MC_EwLsq_mut_sharedpos.cfg", expect_violation="LinearisedForOwnDelta", workers=4)
     ctx.model_check("EwLsq", "MC_EwLsq_mut_staledelta.cfg", expect_violation="LinearisedForOwnDelta", workers=4)
+    ctx.model_check("EwLsq", "MC_EwLsq_mut_stalepos.cfg", expect_violation="PositionsAfterRanking", workers=4)
     # ---- R
     inputs = ctx.generate("EwLsq", ctx.pick("Gen_EwLsq_quick.cfg", "Gen_EwLsq_thorough.cfg"))
     lawcases = ctx.generate("EwLsqCases", ctx.pick("Gen_EwLsqCases_quick.cfg", "Gen_EwLsqCases_thorough.cfg"))
@@ -622,8 +687,11 @@ def run(ctx):
             table.append(c)
     discrete = [c for c in inputs if c["method"] in ("lsq", "wlsq") and c["wk"] not in ("unknown", "scalar", "badshape")
                 and set(c["fixed"]) <= {"delta"}]
-    lawcases.sort(key=law_key)
+    zpcases = sorted((c for c in lawcases if c.get("kind") == "zeropair"), key=zp_key)
+    lawcases = sorted((c for c in lawcases if c.get("kind") != "zeropair"), key=law_key)
     bits0 = fresh_fits(lawcases, ctx.seed)      # before the first fit in this process
+    procs = max(1, min(12, (os.cpu_count() or 2) - 2))
+    zp0 = [r if isinstance(r, list) else [] for r in run_fresh(zp_fresh, [(c, ctx.seed) for c in zpcases], procs)]
     # ---- V
     recs, keys, nontriv, replays = [], [], [], []
     rng = np.random.default_rng(ctx.seed + 13)
@@ -649,6 +717,11 @@ def run(ctx):
             r["bits0"], r["bitsH"] = b0
         recs.append(r); law_recs.append(r)
         keys.append(law_key(c)); nontriv.append(r["exc"] == "" and r["pos"]); replays.append(dict(kind="law", **c))
+    zp_recs = []
+    for c, b0 in zip(zpcases, zp0):
+        r = zp_record(vc, len(recs) + 1, c, ctx.seed, b0)
+        recs.append(r); zp_recs.append(r)
+        keys.append(zp_key(c)); nontriv.append(r["exc"] == "" and r["pos"]); replays.append(dict(c))
     # history: the law fits again in the same process, in another seeded order, each preceded by a fixed-delta
     # least-squares fit of another instance on an equally long sample
     order = np.random.default_rng(ctx.seed + 131).permutation(len(lawcases))
@@ -665,11 +738,13 @@ def run(ctx):
         ctx.case(k, nt)
         for clause in failing.get(r["id"], []):
             ctx.violation(clause, k, f"record={ {kk: vv for kk, vv in r.items() if kk not in ('id',)} }", replay=rp)
-    ctx.log(f"{len(table)} table rows, {len(disc_recs)} small vectors, {len(law_recs)} law cases judged; "
+    ctx.log(f"{len(table)} table rows, {len(disc_recs)} small vectors, {len(law_recs)} law cases, {len(zp_recs)} "
+            f"equal-delta pairs with different numbers of zeros judged; "
             f"{len(failing)} rejected")
-    selftest(ctx, law_recs, disc_recs, failing)
+    selftest(ctx, law_recs, disc_recs, failing, recs)
     ctx.exhaustive = True
-    ctx.notes.update(table_rows=len(table), small_vectors=len(disc_recs), law_cases=len(law_recs))
+    ctx.notes.update(table_rows=len(table), small_vectors=len(disc_recs), law_cases=len(law_recs),
+                     zero_pairs=len(zp_recs))
     ctx.notes["exhaustive_scope"] = ("the decision table and the small-vector domain are enumerated completely (model and "
                                      "real code); the law cases are seeded samples of a continuous space")
     ctx.sample({"case": replays[len(table) + len(disc_recs) // 2], "record": recs[len(table) + len(disc_recs) // 2]}
@@ -686,6 +761,9 @@ def replay(ctx, case):
     if kind == "table":
         xt = 2.0 * np.random.default_rng(ctx.seed + 13).weibull(1.5, 60)
         r, k = table_record(vc, 1, c, xt), table_key(c)
+    elif kind == "zeropair":
+        b0 = run_fresh(zp_fresh, [(c, ctx.seed)], 1)[0]
+        r, k = zp_record(vc, 1, c, ctx.seed, b0 if isinstance(b0, list) else []), zp_key(c)
     elif kind == "discrete":
         with Recorder(vc) as rec_:
             r, k = discrete_record(vc, rec_, 1, c), disc_key(c)
